@@ -3,20 +3,13 @@ verus! {
 
 // ---- parser boundary: find_references is a pure function of (text, configuration) --------------------
 pub uninterp spec fn found(code: Seq<u8>, cfg: Config) -> Seq<LogRefEntry>;
+// find_references itself is verified in unit `find` (positions within the file and non-decreasing); its woven contract is
+// emitted as a stub by the unit builder together with the two assumptions below:
+//   - it is a pure function of (text, configuration): r@ == found(..)   [no state: the lazy statics are constants]
+//   - fewer than 2^32 statements per file
 pub mod parser {
     pub use super::{LogRefEntry, LogRefKind, CodePosition};
-    pub mod code_parser {
-        use vstd::prelude::*;
-        use super::super::*;
-        pub use super::super::CodeLanguage;
-        #[verifier::external_body]
-        pub fn find_references(language: CodeLanguage, code: &str, config: &Config) -> (r: Vec<LogRefEntry>)
-            ensures
-                r@ == found(code.spec_bytes(), *config),
-                positions_ok(code.spec_bytes(), r@),   // established for `find` in unit `find` (spans nested and ordered)
-                r@.len() <= u32::MAX,
-        { unimplemented!() }
-    }
+    pub mod code_parser { pub use super::super::CodeLanguage; pub use super::super::find_references; }
 }
 
 // ---- R9: derived Clone is a field-wise copy --------------------------------------------------------------
